@@ -22,7 +22,10 @@ impl Table {
         match (t, self.alt) { ("v1", false) => ("1", "1"), ("v1", true) => ("ohkami", "ohkami"), ("ve", false) => ("a%26b%3D", "a&b="), ("ve", true) => ("%e7%8b%bc", "狼"), _ => ("", "") }
     }
     pub fn hname(&self, n: &str) -> &'static str {
-        match n { "Host" => "Host", "Accept" => "Accept", "CT" => "Content-Type", "XA" => "X-Request-Id", "XB" => "X-Custom-Flag", "CL" => "Content-Length", _ => "X-Other" }
+        match n { "Host" => "Host", "Accept" => "Accept", "CT" => "Content-Type", "XA" => "X-Request-Id", "XB" => "X-Custom-Flag", "CL" => "Content-Length",
+                  // the registered names of the standard headers are their own tokens (family "names")
+                  other if other.chars().next().is_some_and(|c| c.is_ascii_uppercase()) && other.len() > 2 || other == "TE" => util::leak(other.to_string()),
+                  _ => "X-Other" }
     }
     pub fn cased(&self, name: &str, c: &str) -> String {
         match c {
@@ -103,7 +106,7 @@ pub fn build(req: &Value, t: &Table, seed: u64) -> Built {
         if s(&req["body"]["first"]) == "Z" { body[0] = 0 }
         if req["body"]["nul"].as_bool().unwrap_or(false) && size >= 3 { body[size / 2] = 0 }
         let clv = match fault { "cl-letters" => "abc".to_string(), "cl-digits-then-letter" => format!("{size}a"), "cl-negative" => format!("-{size}"),
-                                "cl-30-digits" => "1".repeat(30), "cl-empty" => String::new(), _ => size.to_string() };
+                                "cl-30-digits" => "1".repeat(30), "cl-empty" => String::new(), "cl-plus-sign" => format!("+{size}"), "cl-hex" => format!("0x{size:x}"), _ => size.to_string() };
         head.extend_from_slice(cl_name.as_bytes()); head.extend_from_slice(b": "); head.extend_from_slice(clv.as_bytes()); head.extend_from_slice(b"\r\n");
     }
     let before_blank = head.len();
@@ -145,7 +148,7 @@ pub fn observe(req: &Value, t: &Table, built: &Built, segs: Vec<Vec<u8>>) -> Val
                 for h in arr(&req["headers"]) { let n = s(&h["n"]).to_string(); if !names.contains(&n) { names.push(n) } }
                 let hdr: Vec<Value> = names.iter().map(|n| {
                     let canon = t.hname(n);
-                    let typed = match n.as_str() { "Host" => r.headers.Host(), "Accept" => r.headers.Accept(), "CT" => r.headers.ContentType(), _ => r.headers.get(canon) };
+                    let typed = match n.as_str() { "CT" => r.headers.ContentType(), "Accept" => r.headers.Accept(), "Accept-Encoding" => r.headers.AcceptEncoding(), "Accept-Language" => r.headers.AcceptLanguage(), "Access-Control-Request-Headers" => r.headers.AccessControlRequestHeaders(), "Access-Control-Request-Method" => r.headers.AccessControlRequestMethod(), "Authorization" => r.headers.Authorization(), "Cache-Control" => r.headers.CacheControl(), "Content-Disposition" => r.headers.ContentDisposition(), "Content-Encoding" => r.headers.ContentEncoding(), "Content-Language" => r.headers.ContentLanguage(), "Content-Location" => r.headers.ContentLocation(), "Date" => r.headers.Date(), "Forwarded" => r.headers.Forwarded(), "From" => r.headers.From(), "Host" => r.headers.Host(), "If-Match" => r.headers.IfMatch(), "If-Modified-Since" => r.headers.IfModifiedSince(), "If-None-Match" => r.headers.IfNoneMatch(), "If-Range" => r.headers.IfRange(), "If-Unmodified-Since" => r.headers.IfUnmodifiedSince(), "Link" => r.headers.Link(), "Max-Forwards" => r.headers.MaxForwards(), "Origin" => r.headers.Origin(), "Proxy-Authorization" => r.headers.ProxyAuthorization(), "Range" => r.headers.Range(), "Referer" => r.headers.Referer(), "Sec-Fetch-Dest" => r.headers.SecFetchDest(), "Sec-Fetch-Mode" => r.headers.SecFetchMode(), "Sec-Fetch-Site" => r.headers.SecFetchSite(), "Sec-Fetch-User" => r.headers.SecFetchUser(), "Sec-WebSocket-Extensions" => r.headers.SecWebSocketExtensions(), "Sec-WebSocket-Key" => r.headers.SecWebSocketKey(), "Sec-WebSocket-Protocol" => r.headers.SecWebSocketProtocol(), "Sec-WebSocket-Version" => r.headers.SecWebSocketVersion(), "TE" => r.headers.TE(), "Trailer" => r.headers.Trailer(), "User-Agent" => r.headers.UserAgent(), "Upgrade-Insecure-Requests" => r.headers.UpgradeInsecureRequests(), "Via" => r.headers.Via(), _ => r.headers.get(canon) };
                     let get = r.headers.get(canon); let getlower = r.headers.get(&canon.to_ascii_lowercase());
                     let tv = |x: Option<&str>| x.map(|x| t.unhval(x)).unwrap_or(json!(["absent"]));
                     json!({"n": n, "typed": tv(typed), "get": tv(get), "getlower": tv(getlower)}) }).collect();
@@ -182,7 +185,8 @@ pub fn gen(rng: &mut Rng, i: usize) -> Value {
     let hasq = rng.chance(1, 2);
     let query: Vec<Value> = if hasq { (0..rng.below(4)).map(|_| json!([*rng.pick(&["k1", "k2"]), *rng.pick(&["v1", "ve", "e"])])).collect() } else { vec![] };
     let hl = [("Host", "canon", "v1"), ("Host", "lower", "v2"), ("Accept", "mixed", "v1"), ("Accept", "upper", "v2"), ("Accept", "canon", "vl"), ("CT", "canon", "vs"), ("CT", "mixed", "v1"),
-              ("XA", "canon", "v1"), ("XA", "canon", "v2"), ("XA", "lower", "v2"), ("XB", "mixed", "vl"), ("XB", "upper", "vs"), ("XA", "upper", "vs"), ("Host", "mixed", "vs")];
+              ("XA", "canon", "v1"), ("XA", "canon", "v2"), ("XA", "lower", "v2"), ("XB", "mixed", "vl"), ("XB", "upper", "vs"), ("XA", "upper", "vs"), ("Host", "mixed", "vs"),
+              ("User-Agent", "upper", "v1"), ("User-Agent", "mixed", "v2"), ("If-None-Match", "mixed", "v2"), ("Sec-WebSocket-Key", "upper", "v1"), ("Referer", "lower", "vs"), ("Via", "upper", "v1"), ("TE", "lower", "v1")];
     let mut headers = vec![]; let mut long = 0;
     for _ in 0..rng.below(7) { let h = rng.pick(&hl); if h.2 == "vl" { long += 1; if long > 3 { continue } } headers.push(json!({"n": h.0, "c": h.1, "v": h.2})) }
     let body = if ["POST", "PUT", "PATCH", "DELETE"].contains(&m) && rng.chance(2, 3) {
@@ -190,10 +194,10 @@ pub fn gen(rng: &mut Rng, i: usize) -> Value {
     } else { json!({"size": "none", "first": "N", "nul": false, "clcase": "canon"}) };
     let faults = ["trunc-method", "trunc-target", "trunc-version", "trunc-header-name", "trunc-header-value", "trunc-before-blank-line", "trunc-body",
         "version-1.0", "version-2", "version-garbage", "no-sp-after-method", "no-sp-after-target", "no-version", "header-no-colon", "bare-lf",
-        "cl-letters", "cl-digits-then-letter", "cl-negative", "cl-30-digits", "cl-empty", "nul-in-target", "nul-in-header-value", "nonutf8-in-header-value",
+        "cl-letters", "cl-digits-then-letter", "cl-negative", "cl-30-digits", "cl-empty", "cl-plus-sign", "cl-hex", "nul-in-target", "nul-in-header-value", "nonutf8-in-header-value",
         "nonutf8-in-target", "unknown-method", "lowercase-method", "target-no-slash", "target-asterisk", "target-too-long", "header-line-too-long"];
     let mut fault = if rng.chance(1, 3) { *rng.pick(&faults) } else { "none" };
-    let needs_body = ["trunc-body", "cl-letters", "cl-digits-then-letter", "cl-negative", "cl-30-digits", "cl-empty"];
+    let needs_body = ["trunc-body", "cl-letters", "cl-digits-then-letter", "cl-negative", "cl-30-digits", "cl-empty", "cl-plus-sign", "cl-hex"];
     let needs_hdr = ["trunc-header-name", "trunc-header-value", "header-no-colon", "nul-in-header-value", "nonutf8-in-header-value", "header-line-too-long"];
     if (needs_body.contains(&fault) && s(&body["size"]) == "none") || (needs_hdr.contains(&fault) && headers.is_empty()) { fault = "none" }
     json!({"id": i, "seed": rng.next() % 1000, "req": {"phase": "end", "method": m, "segs": segs, "trailing": nseg > 0 && rng.chance(1, 4), "query": query, "hasq": hasq,
